@@ -101,6 +101,11 @@ impl Rng {
 		}
 		v
 	}
+	/// `lo..=hi` random bytes
+	pub fn bytes_between(&mut self, lo: u64, hi: u64) -> Vec<u8> {
+		let n = self.range(lo, hi) as usize;
+		self.bytes(n)
+	}
 	pub fn shuffle<T>(&mut self, v: &mut [T]) {
 		for i in (1..v.len()).rev() {
 			let j = self.usize_below(i + 1);
